@@ -232,8 +232,8 @@ def _body(case, ctx):
                 n = g["n"]
                 ds = f.get(f"Lagrangian/{gnames[gi]}/Grid")
                 if ds is None or ds.shape != (n, dim) or ds[...].tobytes() != np.ascontiguousarray(s0["grid"].T).tobytes():
-                    raise Violation(f"Lagrangian grid '{gnames[gi]}' (N={n}) is not stored marker-major (N,dim): "
-                                    f"{None if ds is None else ds.shape}")
+                    raise Violation(f"Lagrangian grid '{gnames[gi]}' (N={n}) is not stored marker-major (N,dim) with the bits of the source array: "
+                                    f"shape {None if ds is None else ds.shape}, dtype {None if ds is None else ds.dtype} (source {s0['grid'].dtype})")
                 for fld in g["fields"]:
                     a = s0["fields"][fld["name"]]
                     if fld["vector"]:
